@@ -18,6 +18,7 @@ model against the code (that is a theorem now); it validates the translator's re
 Direct oracle (independent of Coq): from (count, total_expansion) rebuild blockMesh's progression and test the
 law of the property statement; also used as the search engine.
 """
+import hashlib
 import json
 import math
 import warnings
@@ -130,6 +131,13 @@ def run_inverted(L, kw):
         warnings.simplefilter("ignore")
         try:
             chop = Chop(**kw)
+            # half of the chops (chosen by the input, so that replays agree) have already been calculated on this very
+            # length before they are reversed: what a chop returns depends on its fields as they are now
+            if int(hashlib.sha1(json.dumps([L, kw], sort_keys=True, default=str).encode()).hexdigest()[:4], 16) % 2 == 0:
+                try:
+                    chop.calculate(L)
+                except Exception:  # noqa: BLE001
+                    pass
             chop.invert()
             fields = {f: getattr(chop, f) for f in FIELDS}
         except Exception as e:
@@ -1164,9 +1172,13 @@ class C03(Prop):
             k = rng.choice([1, 2, 2, 3])
             lrs = [1.0 / k] * k if rng.random() < 0.5 else [x / sum(range(1, k + 1)) for x in range(1, k + 1)]
             chops = []
+            uniform = rng.random() < 0.2   # every section uniform (expansion exactly 1): inversion changes the ORDER only
             for lr in lrs:
                 n = draw_n(rng)
-                chops.append((lr, {"count": n, "c2c_expansion": draw_r(rng, n, band=0.1)}))
+                if uniform or rng.random() < 0.25:
+                    chops.append((lr, {"count": n}))
+                else:
+                    chops.append((lr, {"count": n, "c2c_expansion": draw_r(rng, n, band=0.1)}))
             try:
                 spec, ispec, bad = oracle_grading_inverted(L, chops)
             except Exception as e:
